@@ -1,3 +1,4 @@
+#define _GNU_SOURCE
 /* C11 string nodes: replay scripts / drive random set histories; record each call with the
  * bytes given and everything observable afterwards (bytes, length, NUL, equality, copy, text). */
 #include "vhrt.h"
@@ -140,6 +141,45 @@ static void do_set(const unsigned char *data, int n, int kind)
 		observe("setlen", n, data, n > 0 && n < 100000 ? (size_t)n : 0, ret);
 	}
 }
+/* a C string of 2^32 + 5 bytes without 4 GiB of memory: a 16 MiB block of 'x' mapped 256 times back to back, then a
+ * page with "xxxxx" and the terminator */
+#include <sys/mman.h>
+static const char *huge_string(void)
+{
+	static char *base;
+	if (base)
+		return base;
+	const size_t blk = (size_t)16 << 20, total = (size_t)1 << 32;
+	int fd = memfd_create("vh_c11_big", 0);
+	if (fd < 0 || ftruncate(fd, (off_t)blk) != 0)
+		return NULL;
+	char *w = mmap(NULL, blk, PROT_READ | PROT_WRITE, MAP_SHARED, fd, 0);
+	if (w == MAP_FAILED)
+		return NULL;
+	memset(w, 'x', blk);
+	munmap(w, blk);
+	char *b = mmap(NULL, total + 65536, PROT_NONE, MAP_PRIVATE | MAP_ANONYMOUS | MAP_NORESERVE, -1, 0);
+	if (b == MAP_FAILED)
+		return NULL;
+	for (size_t i = 0; i < total / blk; i++)
+		if (mmap(b + i * blk, blk, PROT_READ, MAP_SHARED | MAP_FIXED, fd, 0) == MAP_FAILED)
+			return NULL;
+	char *tail = mmap(b + total, 65536, PROT_READ | PROT_WRITE, MAP_PRIVATE | MAP_ANONYMOUS | MAP_FIXED, -1, 0);
+	if (tail == MAP_FAILED)
+		return NULL;
+	memcpy(tail, "xxxxx", 6);
+	close(fd);
+	base = b;
+	return base;
+}
+static void do_setbig(void)
+{
+	const char *h = huge_string();
+	if (!h)
+		return;
+	int ret = json_object_set_string(node, h);
+	observe("setbig", -1, (const unsigned char *)"", 0, ret);
+}
 static void do_delete(void)
 {
 	json_object_put(node);
@@ -267,6 +307,14 @@ static int drive(int start, int nexec, int nops)
 			}
 			do_delete();
 			continue;
+		}
+		if (x == start)
+		{
+			/* once per process: the oversize source, on an inline node and again after the node has grown */
+			do_setbig();
+			fill(200, 3);
+			do_set(buf, 200, 0);
+			do_setbig();
 		}
 		int ops = 1 + (int)vh_below((uint32_t)nops);
 		for (int i = 0; i < ops; i++)
